@@ -300,7 +300,8 @@ impl SimdMemOps {
 
         let distance = self.cache_config.prefetch_distance;
         let cache_line_size = self.cache_config.cache_line_size;
-        let step_size = cache_line_size.min(distance);
+        // chunks() needs a non-zero step: a prefetch distance of 0 degenerates to byte steps
+        let step_size = cache_line_size.min(distance).max(1);
 
         // Safe iteration - no pointer arithmetic overflow possible
         for chunk in data.chunks(step_size) {
